@@ -87,6 +87,19 @@ CHECKS = {
              "selection; option plumbing by name. The cu2qu error bound and point equality are not decided.",
         design_ref="DESIGN.md §5 C02", note=STATIC_NOTE,
         technique="static analysis: exhaustive guard evaluation (decision table), sibling agreement, formula-shape matching after local inlining, call-graph handler audit"),
+    "C08": dict(
+        text="Static determinism clauses: every place in the package where the iteration order of a set can be observed (50 sites, found by "
+             "a set-kind inference over locals, parameters, fields and returns) is classified order-free or order-sensitive; each of the "
+             "order-sensitive ones is on a reviewed table whose linked sanitiser obligations (sorted()/sort() downstream, keyed-only "
+             "dictionaries, order-neutral glyph-class sinks) are re-checked on every run, a new sensitive site is a violation; clock / "
+             "environment / id() / temp-file sources only at reviewed sites; compiler attributes overwritten while compiling masters are "
+             "restored in finally, cached options only filled when None; every public compile function builds its own compiler, no "
+             "module-/class-level container is mutated at call time; member-adding/removing writes to the caller's sources (ownership "
+             "analysis of C07) are history dependence (2 listed known findings); glyph copies use only the UFO glyph protocol. Byte "
+             "identity itself and defcon/ufoLib2 behavioural differences are not decided.",
+        design_ref="DESIGN.md §5 C08, §3 E4", note=STATIC_NOTE + " Assumes dict iteration order is content (insertion order) and that glyph-class "
+             "literals / coverage sets are order-neutral sinks.",
+        technique="static analysis: set-kind inference + order-observation site classification with linked sanitiser obligations, nondeterminism-source whitelist, save/restore pairing in try/finally, shared-state mutation scan, ownership analysis"),
 }
 
 _TODO = "check not built yet in this session (static rules designed in DESIGN.md §5; will be claimed when the rule set is armed)"
